@@ -136,15 +136,19 @@ CHECKS["C09"] = {
 }
 CHECKS["C10"] = {
     "level": "proof",
-    "text": "Kernel-checked per model (Learner1D, SequenceLearner, AverageLearner): re-telling a known point is a no-op (also with a "
-            "different value for the first-value learners), no pending point has data, no point is stored twice, the abscissa lists "
-            "are exactly the told points, remove_unfinished empties the pending set and equalises both losses; further bookkeeping "
-            "theorems (data = first/last told value for every run, committed asks pending until told) in Lemmas/*Book.lean as "
-            "listed in the evidence. LearnerND / IntegratorLearner / AverageLearner1D have no Lean model of this bookkeeping: "
-            "for them the deciding part is the shadow oracle (listed as partial). Search: shadow bookkeeping over 20 learner kinds.",
+    "text": "Kernel-checked per model: Learner1D, SequenceLearner, AverageLearner (Props/C10.lean) - re-telling a known point is a no-op "
+            "(also with a different value for the first-value learners, also after the point was marked pending again), no pending "
+            "point has data in ANY history, no point is stored twice, data = first/last told value, committed asks pending until told, "
+            "remove_unfinished empties the pending set and equalises both losses; LearnerND, IntegratorLearner and the complete "
+            "AverageLearner1D (Props/C10More.lean, on the models of C04 / C07 / C16) - data = the distinct told points, point count, "
+            "told => not pending, asked => pending until told or discarded, re-tell no-op, discard; where a clause is false of model and "
+            "code the kernel-checked counterexample stands next to the theorem, which then carries the explicit hypothesis. Learner2D has "
+            "no Lean model. Search: shadow bookkeeping over 21 learner kinds incl. wrappers, retries (re-marked told points), abscissae "
+            "of the integrator told before they were handed out.",
     "design_ref": "DESIGN.md section 6 C10",
-    "note": "Trusted: Lean kernel, standard axioms; models tied to the code by the lock-step checks C01/C02/C15/C16/C17/C18. Three "
-            "defects found here were repaired by fix: commits; one is a recorded finding (AverageLearner1D re-issues evaluated seeds).",
+    "note": "Trusted: Lean kernel, standard axioms; models tied to the code by the lock-step checks C01/C02/C04/C07/C15/C16/C17/C18. "
+            "Defects found here were repaired by fix: commits; recorded findings: AverageLearner1D re-issues evaluated seeds, the "
+            "integrator hands out an abscissa that was told before it was asked.",
     "technique": T,
 }
 CHECKS["C13"] = {
@@ -244,124 +248,6 @@ CHECKS["C08"] = {
             "doubles xi are the correctly rounded cosines is not proved (residual bound only).",
     "technique": "Lean 4 theorems (real-analysis skeleton with hypothesis = estimator validity; kernel computations over tables dumped "
                  "from the live module) + closed-form oracle + differential testing vs reference implementation",
-}
-CHECKS["C09"] = {
-    "level": "proof",
-    "text": "Kernel-checked per model: for Learner1D, SequenceLearner, AverageLearner, AverageLearner1D (complete model), DataSaver over "
-            "any learner and BalancingLearner over lawful children, ask(n, False) returns the very state it was given (hence data, "
-            "pending, losses and all later answers are unchanged) and the points of ask(n, True), whose state is tell_pending folded "
-            "over them. LearnerND / IntegratorLearner (utils.restore snapshot): the roll-back half is proved on the models of C04 / C07 "
-            "(state as given, also when the request raises; same points and error class as the committing ask), the committing half "
-            "is left to the twin oracle (listed as partial); Learner2D has no Lean model. Search: twin learners over 22 kinds, one "
-            "receiving extra non-committing asks twice (incl. requests that cannot be served and raise); every observable and every "
-            "later answer compared exactly.",
-    "design_ref": "DESIGN.md section 6 C09",
-    "note": "Trusted: Lean kernel, standard axioms; the models are tied to the code by the lock-step runs of C01/C02/C04/C07/C15/C16/C17/C18; "
-            "utils.restore (deepcopy of __dict__) is an exact snapshot. Three defects found here were repaired by fix: commits.",
-    "technique": T,
-}
-CHECKS["C10"] = {
-    "level": "proof",
-    "text": "Kernel-checked per model (Learner1D, SequenceLearner, AverageLearner): re-telling a known point is a no-op (also with a "
-            "different value for the first-value learners), no pending point has data, no point is stored twice, the abscissa lists "
-            "are exactly the told points, remove_unfinished empties the pending set and equalises both losses; further bookkeeping "
-            "theorems (data = first/last told value for every run, committed asks pending until told) in Lemmas/*Book.lean as "
-            "listed in the evidence. LearnerND / IntegratorLearner / AverageLearner1D have no Lean model of this bookkeeping: "
-            "for them the deciding part is the shadow oracle (listed as partial). Search: shadow bookkeeping over 20 learner kinds.",
-    "design_ref": "DESIGN.md section 6 C10",
-    "note": "Trusted: Lean kernel, standard axioms; models tied to the code by the lock-step checks C01/C02/C15/C16/C17/C18. Three "
-            "defects found here were repaired by fix: commits; one is a recorded finding (AverageLearner1D re-issues evaluated seeds).",
-    "technique": T,
-}
-CHECKS["C13"] = {
-    "level": "proof",
-    "text": "Kernel-checked data round trips _set_data(_get_data()) per model (DataSaver incl. extra_data over any child, "
-            "AverageLearner moments, SequenceLearner, Learner1D as listed in the evidence). Restore-bisimilarity beyond the data "
-            "(same loss, same next suggestions) is NOT proved in Lean and LearnerND / IntegratorLearner / AverageLearner1D have no "
-            "model of their persistence: there the deciding part is the search (listed as partial). Search: real save/load (gzip "
-            "on/off), pickle, cloudpickle, copy_from for 19 learner kinds after histories ending with no pending points; data exactly, "
-            "loss and next ask(1)/ask(3) exactly (pickles) or to 1e-9 (file/copy).",
-    "design_ref": "DESIGN.md section 6 C13",
-    "note": "Trusted: Lean kernel, standard axioms; cloudpickle/gzip byte formats; models tied to the code by the lock-step checks. "
-            "One recorded finding (Learner1D restored while a domain end point has no value normalises x by the data hull).",
-    "technique": T,
-}
-CHECKS["C11"] = {
-    "level": "proof",
-    "text": "Kernel-checked: SequenceLearner — any order of the same tells gives the same state; AverageLearner — same moments, data "
-            "set, mean/std/loss and next suggestions; Learner1D with exact recomputation (factor 1), every loss function with any "
-            "number of neighbours, scalar or vector values: the state is a FUNCTION OF (data, pending) along valid histories — "
-            "permuted single tells, one batch through either tell_many path, and arbitrary histories with pending points that end "
-            "with the same data and pending set agree in both loss tables (as lists, in container order), loss(real) and ask(n) for "
-            "all n. With the default factor 2 the statement is false of code and model (kernel-checked counterexample; recorded "
-            "finding). Search: real point sets re-told in all permutations (<= 5) / random orders / batches, with pending points.",
-    "design_ref": "DESIGN.md section 6 C11", "note": _L1D_NOTE, "technique": T,
-}
-CHECKS["C12"] = {
-    "level": "proof",
-    "text": "Kernel-checked over ordered fields for ARBITRARY positive input and output factors, every loss function (needing only: "
-            "insensitive to a common factor on values that are all equal), every nn, every history: each Learner1D operation "
-            "commutes with scaling, the rescaled learner chooses exactly the scaled points with the same improvements and reports "
-            "the same losses. The bit-for-bit clause for IEEE doubles / powers of two and the LearnerND clause are decided by the "
-            "paired run on the real code (listed as partial: no Lean model of LearnerND, rounding outside the theorems). Search: "
-            "paired real learners, factors 2^k, k in [-30, 30], compared bit for bit at every step; generic factors to 1e-6.",
-    "design_ref": "DESIGN.md section 6 C12", "note": _L1D_NOTE + " One LearnerND defect found here was repaired by a fix: commit; one is a recorded finding (absolute log-det cut).", "technique": T,
-}
-CHECKS["C20"] = {
-    "level": "proof",
-    "text": "Kernel-checked theorems over every ordered field about Lean definitions that harness/translate.py regenerates "
-            "from the repository's source on every run (fast_norm, fast_det 2x2/3x3 = Matrix.det, 2-D/3-D circumcentre "
-            "equidistant + unique + radius, in-triangle test = barycentric coordinates in [0,1] / convex combination, "
-            "Heron = Gram determinant = |det|/2, volume = |det|/d!, 1-D uniform/default/triangle losses, linspace; invariance "
-            "under translation, relabelling, rigid motions, homogeneity; sanity of the tolerances read from the live modules). "
-            "Tie: the same definitions evaluated at Float agree bit for bit (<= 4 ulp where libm hypot is involved) with the "
-            "real functions on seeded inputs. Search: exact Fraction re-computation of every primitive's meaning incl. the "
-            "numpy general-dimension branches, N-D/2-D losses and quadrature constants, dims 1-5.",
-    "design_ref": "DESIGN.md section 6 C20",
-    "note": "Trusted: Lean kernel, standard axioms, harness/translate.py (python subset -> Lean, kernel table for "
-            "sqrt/abs/array/broadcasting/hypot/pdist/factorial) and the constants dump; sqrt assumed to satisfy "
-            "0<=x -> 0<=sqrt x and sqrt x * sqrt x = x (Real.sqrt does); IEEE rounding outside the theorems. General-dimension "
-            "numpy branches, N-D/2-D loss functions and integrator_coeffs are modelled-not-verified (exact oracle only). "
-            "Non-degenerate inputs. Six functions raise for every input under the installed NumPy/SciPy and are listed as "
-            "environmental in the evidence.",
-    "technique": "Lean 4 theorems over definitions translated from /repo on every run + bit-level correspondence with /repo",
-}
-CHECKS["C07"] = {
-    "level": "proof",
-    "text": "Kernel-checked theorems over the bookkeeping model of IntegratorLearner, for every number type, every oracle for the abscissae and for "
-            "the numeric outcome of complete_process, all parameters and every history of tell (any abscissa) / ask (any size, committing or rolled "
-            "back) / tie re-ordering: no abscissa is pushed or handed out twice; a foreign abscissa is rejected with the state unchanged; no "
-            "AssertionError/KeyError site of the learner is reachable (nested abscissae: hypothesis, discharged for the real Clenshaw-Curtis node "
-            "tables dumped from integrator_coeffs on every run - index map k -> 2k proved by kernel evaluation); in every reachable state every "
-            "non-empty done_leaves is a cut of its interval's subtree (full: invariant of the done-leaves walk incl. revived intervals, split, "
-            "refine, remove; recursive and path formulation), its intervals are contiguous from a to b under split's midpoint relation, the "
-            "approximating intervals span the constructor's bounds; the fuel of the model's tree recursions is never exhausted; igral/err are the "
-            "sums over the approximating intervals. Tie: bit-exact lock-step of ask results, complete_process call order, approximating intervals, "
-            "npoints, pending, done(), igral/err, error class. Search: the property's clauses on the real learner after every operation; "
-            "regression corpus of four repaired defects.",
-    "design_ref": "DESIGN.md section 6 C07",
-    "note": "Trusted: Lean kernel, standard axioms, hand model Integ.lean tied by differential testing with everything numeric as a "
-            "recorded oracle (harness/integ_drive.py wrappers), constants ns/ndiv_max asserted at run time, SortedSet(key=rdepth) order, "
-            "tie order after a rolled-back ask taken from the code (relational); node tables: harness/integ_tables.py (asserts "
-            "_Interval.points = (a+b)/2 + (b-a)*xi/2 elementwise). Reading: the partition clause applies whenever the set "
-            "of approximating intervals is non-empty. Histories stop at the first divergence / NaN error estimate.",
-    "technique": T,
-}
-CHECKS["C08"] = {
-    "level": "other",
-    "text": "Partial. Kernel-checked real-analysis skeleton only (Mathlib intervalIntegral): adjacent pieces from a to b and per-piece "
-            "validity of the local estimate imply |int f - igral| <= err, and with done()'s disjunct err < |igral|*tol <= max(err, tol*|igral|) "
-            "(integ_global_bound_partial and corollaries). Validity of Gonnet's estimator, the coefficient tables and floating point are NOT "
-            "proved: covered by testing - 8 closed-form families (poly <=12, exp, sin, Lorentzian, Gaussian, inverse-sqrt end-point "
-            "singularity with f(a)=inf, kink, jump) x seeded parameters, tol 1e-10..1e-3, sequential and shuffled/partial delivery, "
-            "|igral-exact| <= max(err, tol*|exact|)+1e-13 when done(); differential igral/err vs adaptive/tests/algorithm_4.py for equal "
-            "evaluation counts (to convergence and at truncated loop counts).",
-    "design_ref": "DESIGN.md section 6 C08",
-    "note": "Trusted: Lean kernel, standard axioms; closed forms via math.erf/atan/expm1 and exact rationals; algorithm_4.py as reference. "
-            "Differential disagreements after either implementation has dropped an interval (different too-narrow rules: the reference "
-            "lacks abs() and tests stale points) are counted in the evidence, not failed.",
-    "technique": "Lean 4 theorem (real-analysis skeleton, hypothesis = estimator validity) + closed-form oracle + differential testing "
-                 "vs reference implementation",
 }
 CHECKS["C03"] = {
     "level": "proof",
